@@ -17,7 +17,7 @@ REAL_REPLAY = False
 STUBS = ['thermo.mixture: H, S (and xH, xS as sums over phases) uninterpreted functions of (phase, composition, T, P)',
          'solve_T_at_HP / solve_T_at_SP / xsolve_T_at_HP / xsolve_T_at_SP: fresh T* with the contract total * model(x, T*) == target']
 ASSUMPTIONS = ['flows symbolic > 0 on a presence pattern, T in (250, 500), P in (1e4, 1e7), Q symbolic',
-               'the receiver is not one of the inlets (the statement of C02 does not include that case; it is explored as a separate group and only reported in the evidence)']
+               'the receiver may be one of the inlets (group mix-into-one-of-the-inlets)']
 OUTSIDE = ['convergence and accuracy of the real Aitken/secant temperature solve for real Cn(T) data', '"assigning the value it already has leaves T unchanged" (a statement about the real solver)',
            'vle=True mixing']
 BOUNDS = {'quick': dict(chemicals=2, inlets='<=2', kinds='Stream l/g, MultiStream lg'), 'thorough': dict(chemicals=2, inlets='<=3')}
@@ -106,20 +106,15 @@ def g_mix(kinds, max_in, self_mix=False):
         P_in = [s.P for s in nonempty]
         sig = f'inlets={[("ms" if isinstance(s, tmo.MultiStream) else s.phase) for s in ins]}/Q={with_Q}/self={self_mix}'
         recv.mix_from(inlets, energy_balance=True, Q=Q)
-        if len(nonempty) == 1 and not with_Q:
-            exp_H = H_in[0]
-        else:
-            exp_H = sum(H_in) + Q
+        exp_H = sum(H_in) + Q
         got = recv.H
         E.observe('H', got)
-        if len(nonempty) == 1:
-            # a single non-empty inlet is copied (copy_like): same H; heat is NOT added by the library in that case
-            E.prove('single-inlet-is-copied', E.eq(got, H_in[0]), sig=sig)
-        else:
-            E.prove('receiver-H-is-sum-of-inlet-H-plus-Q', E.eq(got, exp_H), sig=sig)
-            # pressure = lowest pressure among the non-empty inlets
-            conds = [E.le(recv.P, p) for p in P_in] + [E.any([E.eq(recv.P, p) for p in P_in])]
-            E.prove('receiver-P-is-lowest-inlet-P', E.all(conds), sig=sig)
+        sig += f'/nonempty={len(nonempty)}'
+        # (a single non-empty inlet is copied by the library - copy_like - and the heat added on top)
+        E.prove('receiver-H-is-sum-of-inlet-H-plus-Q', E.eq(got, exp_H), sig=sig)
+        # pressure = lowest pressure among the non-empty inlets
+        conds = [E.le(recv.P, p) for p in P_in] + [E.any([E.eq(recv.P, p) for p in P_in])]
+        E.prove('receiver-P-is-lowest-inlet-P', E.all(conds), sig=sig)
     return run
 
 
@@ -170,6 +165,8 @@ def groups(tier):
         'separate-energy-balance': (g_separate(['l'] if q else kinds), dict(max_paths=400000, qtimeout_ms=20000)),
         'H-S-setters': (g_setters(kinds), dict(qtimeout_ms=20000, stubs_required=('solve_T',))),
     }
+    # the receiver is itself one of the inlets: s.mix_from([s, other]) (first example of the docstring, and `s += other`)
+    g['mix-into-one-of-the-inlets'] = (g_mix(['l', 'g'] if q else kinds, 1 if q else 2, self_mix=True), dict(max_paths=1000000, qtimeout_ms=20000))
     if not q:
         g['mix-with-multistream-inlets'] = (g_mix(['ms:lg', 'l'], 2), dict(max_paths=1000000, qtimeout_ms=20000))
     return g
